@@ -473,3 +473,7 @@ silent("ok-c06-cancel-catch-tuple", "C06", E + "executor.py",
 silent("ok-c19-mapper-rename", "C19", U + "extend_schema.py",
        "                extensions = tuple(type_extensions.union[config[\"name\"]])\n                return merge_kwargs(\n                    config,\n                    types=lambda: [\n                        *config[\"types\"](),\n                        *build_union_types(extensions),\n                    ],\n                    extension_ast_nodes=config[\"extension_ast_nodes\"] + extensions,",
        "                new_nodes = tuple(type_extensions.union[config[\"name\"]])\n                return merge_kwargs(\n                    config,\n                    types=lambda: [\n                        *config[\"types\"](),\n                        *build_union_types(new_nodes),\n                    ],\n                    extension_ast_nodes=config[\"extension_ast_nodes\"] + new_nodes,")
+v("c14-unfix-cache-plain-dict", "C14", "NODE-KEY-IDENTITY", V + "rules/overlapping_fields_can_be_merged.py",
+  "        self.cached_fields_and_fragment_spreads: FieldsAndFragmentSpreadsCache = (\n            RefMap()\n        )", "        self.cached_fields_and_fragment_spreads: dict = {}")
+v("c13-unfix-oneof-wrapped-parent", "C13", "WRAPPED-KIND-TEST", V + "rules/variables_in_allowed_position.py",
+  "            parent_type = get_nullable_type(usage.parent_type)", "            parent_type = usage.parent_type")
